@@ -405,7 +405,8 @@ def rule_r345(prog: Program, col: Collector) -> None:
         if e.attr == "cumulative_regret" and e.obj == SELF and (is_call_to(e.value, "numpy.maximum", "numpy.clip")):
             clips.append(e)
     for e in ft.calls():
-        if is_global(e.func, "numpy.maximum", "numpy.clip") and e.kwargs.get("out") == CR:
+        outn = e.data.get("kw_nodes", {}).get("out")
+        if is_global(e.func, "numpy.maximum", "numpy.clip") and outn is not None and ast.unparse(outn) == "self.cumulative_regret":
             clips.append(e)
     okp = False
     for c in clips:
